@@ -30,7 +30,7 @@ if [ $suite -eq 0 ] && [ $with -ne 0 ] && [ $without -eq 0 ]; then
   python3 - <<PY
 import json
 m=json.load(open('$src/meta.json'))
-m['confirmed_by_me']={'worktree':'$wt (detached ba4a22b)','build':'go build ./... ok','suite':'go test -count=1 ./... exit 0 with the change','demo_with_change':'exit $with (fails)','demo_without_change':'exit 0 (passes)','demo_run':'cp demo_test.go $pkgdir/zz_seed_demo_test.go; go test -count=1 -run "$runpat" ./$pkgdir'}
+m['confirmed_by_me']={'worktree':'$wt (detached scratch commit: /repo HEAD without the contract files)','build':'go build ./... ok','suite':'go test -count=1 ./... exit 0 with the change','demo_with_change':'exit $with (fails)','demo_without_change':'exit 0 (passes)','demo_run':'cp demo_test.go $pkgdir/zz_seed_demo_test.go; go test -count=1 -run "$runpat" ./$pkgdir'}
 json.dump(m,open('$dst/meta.json','w'),indent=1)
 PY
   echo RESULT=confirmed
